@@ -98,6 +98,17 @@ theorem footprint_clean : ∀ w ∈ Gen.sharedWrites, rowOK w = true := by decid
 theorem table_acts_clean :
     ∀ a ∈ tableActs Gen.sharedWrites, cleanAct (tableCfg Gen.sharedWrites) a = true := by decide
 
+/-- A process-wide cache whose content the callers USE (`compiledPatterns.Load` in visitJSONString: the matcher
+    found there is applied whatever regex compiler the call was given) is filled by nothing reachable from the
+    concurrent entry points. This is what makes per-call options (Options.RegexCompiler, SetSchemaRegexCompiler)
+    safe next to a cache keyed by the pattern text alone; a `Store` in compilePattern breaks it. -/
+theorem used_caches_never_filled :
+    ∀ a ∈ tableActs Gen.sharedWrites, useOK (tableCfg Gen.sharedWrites) a = true := by
+  decide
+
+/-- …and the table does contain such a use (non-vacuity). -/
+theorem table_has_cache_use : (tableActs Gen.sharedWrites).any isUse = true := by decide
+
 /-- Every row of the table is accounted for by the concrete operation footprints of `ConcCase`. -/
 theorem table_rows_modelled : ∀ w ∈ Gen.sharedWrites, rowKey w ∈ modelledRows := by decide
 
@@ -155,7 +166,7 @@ theorem outcome_clean (c : CaseM) : outcome c = specOutcome := by
       simp only [docCells, docCell, routerCell, uniqCell, dfltCell, List.mem_cons, List.not_mem_nil, or_false] at hdm
       rcases hdm with rfl | rfl | rfl | rfl <;> decide
     have hn : d ∉ (caseCfg c).cache := fun hm => by
-      have h1 : 10 ≤ (d : Nat) := cache_cell_ge c d hm
+      have h1 : 10 ≤ (d : Nat) := (cache_cell_ge c d hm).1
       exact absurd h1 (Nat.not_le.mpr hlt)
     simp [document_untouched (caseCfg c) sigma0 (caseTrace c) hc hl d hn]
   simp [outcome, outcomeOf, specOutcome, hr, hd, hdoc]
@@ -184,6 +195,27 @@ theorem regression_type_info_schedule_dependent :
     outcomeOf 2 [(0, .syncStore (typeCell 3) 1000), (0, .syncRead (typeCell 3)),
                  (1, .syncStore (typeCell 3) 1001), (1, .syncRead (typeCell 3))] = specOutcome := by
   decide
+
+/-- Seeded defect of round 2 (`compiledPatterns.Store(pattern, cp)` in compilePattern): the cache, keyed by the
+    pattern text alone, is really filled, with a matcher that depends on the call's regex compiler. Two calls
+    with DIFFERENT compilers on the same pattern: whoever comes second uses the other's matcher — no data race
+    (sync.Map), but a verdict that is not the solo verdict. -/
+theorem regression_pattern_cache_filled_two_dialects :
+    outcomeOf 2 [(0, .cacheUse (patCell 0) 1), (0, .syncStore (patCell 0) 1),
+                 (1, .cacheUse (patCell 0) 2), (1, .syncStore (patCell 0) 2)] = ⟨false, true, false⟩ := by
+  decide
+
+/-- …with ONE compiler used everywhere the filled cache is transparent (why no existing test notices). -/
+theorem regression_pattern_cache_filled_one_dialect :
+    outcomeOf 2 [(0, .cacheUse (patCell 0) 1), (0, .syncStore (patCell 0) 1),
+                 (1, .cacheUse (patCell 0) 1), (1, .syncStore (patCell 0) 1)] = specOutcome := by
+  decide
+
+/-- the code as it is: calls with different regex compilers on the same pattern, any schedule (instance of
+    `outcome_clean`; the compilers are per-call options, field `dialect`) -/
+example : outcome { ops := [{ kind := .vreq, patterns := [0], dialect := 1 }, { kind := .visit, patterns := [0] },
+                            { kind := .vresp, patterns := [0, 1], dialect := 1 }], g := 6, per := 2, sched := 3 }
+    = specOutcome := by decide
 
 /-- the repaired `getTypeInfo` on the same schedule: first published descriptor wins, modelled as a fill -/
 example : outcome { ops := [{ kind := .gen, genType := 3, recursive := true }], g := 2, per := 1, sched := 9 }
